@@ -28,6 +28,18 @@ type Server struct {
 	opts    Options
 }
 
+// decodeHook lets a harness edit a decoded inbound message before the handler
+// sees it: the way to present message *values* the wire decoder never
+// produces (e.g. nil table entries) to code that must survive any value.
+type decodeHook struct{ f func(drpc.Message) }
+
+func hook() *decodeHook {
+	return simrt.Local("simdrpc-decode-hook", func() any { return &decodeHook{} }).(*decodeHook)
+}
+
+// SetDecodeHook installs f for the current run (nil removes it).
+func SetDecodeHook(f func(drpc.Message)) { hook().f = f }
+
 func New(handler drpc.Handler) *Server { return NewWithOptions(handler, Options{}) }
 
 func NewWithOptions(handler drpc.Handler, opts Options) *Server {
@@ -143,7 +155,13 @@ func (s *stream) MsgRecv(msg drpc.Message, enc drpc.Encoding) error {
 		}
 		switch f[0] {
 		case wire.KMessage:
-			return enc.Unmarshal(f[1:], msg)
+			if err := enc.Unmarshal(f[1:], msg); err != nil {
+				return err
+			}
+			if h := hook(); h.f != nil {
+				h.f(msg)
+			}
+			return nil
 		case wire.KCloseSend, wire.KClose:
 			s.over = true
 			return io.EOF
